@@ -13,7 +13,7 @@ TECHNIQUE = "property-based testing: generated plotfiles x selector forms, bit-e
 RULE = ("Hypothesis-generated 2D/3D plotfiles (1-3 nested levels, mixed extents, scattered / non-monotone binary "
         "layouts, special-float payloads) x ~12 queries each: field selector (name, int, numpy int, name list, "
         "ascending / repeated / descending / negative int lists and arrays, slices with every start/stop/step "
-        "sign, out-of-range, unknown) x level (0..limit, limit+1, -1) x box selector (int, negative, numpy int, "
+        "sign, out-of-range, unknown) x level (0..limit; limit+1 and -(limit+2), -(limit+3) must raise; -1..-(limit+1) python-style under the either-rule) x box selector (int, negative, numpy int, "
         "slices, int lists/arrays incl. negative/repeated/int32, boolean masks as array/list, wrong-length mask, "
         "empty, out of range). Listed forms must return the exact 64-bit values; other forms must either raise "
         "or return exactly what numpy indexing semantics give. Non-trivial = >= 2 fields and (scattered or "
@@ -86,7 +86,7 @@ def box_selectors(draw, nb):
 
 @st.composite
 def cases(draw, tier="quick"):
-    spec = draw(plotgen.plot_specs(thin=True, max_cells=3000 if tier == "quick" else 10000, max_fields=7,
+    spec = draw(plotgen.plot_specs(thin=True, many=True, max_cells=3000 if tier == "quick" else 10000, max_fields=7,
                                    payload_kinds=("special", "coded", "random")))
     if draw(st.integers(0, 2 ** 16)) % 4 == 1:
         # index space not starting at 0 (negative low indices are legal in AMReX, e.g. a domain centred on the origin)
@@ -97,8 +97,9 @@ def cases(draw, tier="quick"):
     L = plot.nlev - 1 if limit is None else limit
     queries = []
     for _ in range(draw(st.integers(6, 14))):
-        lv = draw(st.sampled_from(list(range(L + 1)) * 8 + [L + 1, -1]))
-        nb = len(plot.levels[min(max(lv, 0), plot.nlev - 1) if lv >= 0 else L]["boxes"])
+        # levels 0..L (the listed form); python-style negative levels -1..-(L+1) under the either-rule; L+1, -(L+2), -(L+3) must raise
+        lv = draw(st.sampled_from(list(range(L + 1)) * 8 + [L + 1, -1] + list(range(-(L + 3), 0))))
+        nb = len(plot.levels[min(max(lv, 0), plot.nlev - 1) if lv >= 0 else max(L + 1 + lv, 0)]["boxes"])
         queries.append(dict(f=draw(field_selectors(nf)), lv=lv, b=draw(box_selectors(nb))))
     return dict(spec=spec, limit=limit, queries=queries)
 
@@ -209,8 +210,8 @@ def check_case(case, ctx):
             exp_f = None if fidx is None else np.arange(nf)[fidx]
         except IndexError:
             exp_f = None
-        lv_ok = -1 <= lv <= L
-        lv_eff = L if lv == -1 else lv
+        lv_ok = -(L + 1) <= lv <= L
+        lv_eff = L + 1 + lv if lv < 0 else lv
         lv_must = 0 <= lv <= L
         nb = len(plot.levels[lv_eff]["boxes"]) if lv_ok else 1
         bobj, bidx, bmust, bsingle = box_arg(q["b"], nb)
@@ -222,6 +223,8 @@ def check_case(case, ctx):
         must = honourable and fmust and bmust and lv_must and not shifted
         ctx.label("q:must" if must else ("q:either" if honourable else "q:must-raise"))
         ctx.label("f:" + q["f"]["k"], "b:" + q["b"]["k"])
+        if lv < 0:
+            ctx.label("level:negative" + ("" if lv_ok else " (out of range)"))
         if exp_f is not None and np.size(exp_f) and int(np.min(exp_f)) > 0:
             offset_sel = True
         desc = f"query {qi} pck[{q['f']}][{lv}][{q['b']}]"
